@@ -123,6 +123,21 @@ Definition first_mode (c : case) (p : path) : option N :=
       end
   end.
 
+(* the path's file is also shipped under another name that (in the final tree)
+   resolves to the same place: a directory reachable under two names *)
+Definition aliased (c : case) (p : path) : bool :=
+  match canon_path (o_tree c) p with
+  | None => false
+  | Some q =>
+      existsb (fun h => negb (path_eqb (h_path h) p) &&
+                        match canon_path (o_tree c) (h_path h) with Some q' => path_eqb q q' | None => false end)
+              (all_hdrs (c_pkgs c))
+  end.
+
+(* a package ships a symbolic link at a prefix of the path (or at the path) *)
+Definition thru_link (c : case) (p : path) : bool :=
+  existsb (fun h => kind_eqb (h_kind h) KSym && is_prefix_path (h_path h) p) (all_hdrs (c_pkgs c)).
+
 Fixpoint stanzas_line_up (pkgs : list pkg) (db : list dbpkg) : bool :=
   match pkgs, db with
   | [], [] => true
@@ -153,8 +168,8 @@ Definition check_observed (c : case) : list string :=
   tag_if (negb (o_db_parsed c)) "viol:installed-db-unreadable" ++
   (if rule_envelope c then check_rules (c_backend c) (c_pkgs c) (o_err c) (o_tree c) else []) ++
   (if eclass_eqb (o_err c) ENoError && o_db_parsed c then
-     nodup string_dec (check_db_entries (c_backend c) (c_pre c) (o_tree c) (first_mode c) (o_db c)) ++
-     (if stanzas_line_up (c_pkgs c) (o_db c) then check_once_all (c_pkgs c) (o_db c) (o_tree c)
+     nodup string_dec (check_db_entries (c_backend c) (c_pre c) (o_tree c) (first_mode c) (aliased c) (thru_link c) (o_db c)) ++
+     (if stanzas_line_up (c_pkgs c) (o_db c) then check_once_all (c_pre c) (aliased c) (thru_link c) (c_pkgs c) (o_db c) (o_tree c)
       else ["viol:db-stanza-per-package"])
    else []) ++
   (* a conflict must leave the path it names as it was: still a file or link *)
